@@ -57,8 +57,9 @@ META = dict(
          "reference (conv_KD: an element is extracted only after its own conversion is complete, when its partial is "
          "filled) and NO returned tree contains the '' placeholder (Tree.hasEmptyStr, the Optional('') of the "
          "finding). Still partial: noEmptyPlaceholder of the resolved trees also forbids rawNone, which on a filled "
-         "heap can only come from resolve's fuel |heap|+1 running out or a dangling reference - the acyclicity / "
-         "in-bounds invariant of the partial heap is not proved. "
+         "heap can only come from resolve's fuel |heap|+1 running out or a dangling reference - no_dangling_reference (FULL strength: all "
+         "grammars, options, roots, fuels) proves that every reference in a partial and every kept diagram content "
+         "points into the heap, so only the fuel bound (acyclicity of the partial heap) is not proved. "
          "tokens_covered and the tree-level no_empty_placeholder are NOT proved in "
          "general: they are decided by the oracle on the real code over generated grammars and by the "
          "model-vs-code correspondence.",
@@ -91,6 +92,7 @@ THEOREMS = [
     "PP.Diagram.no_empty_placeholder_partial",
     "PP.Diagram.no_empty_placeholder_output_partial",
     "PP.Diagram.no_empty_placeholder_tree_partial",
+    "PP.Diagram.no_dangling_reference",
     "PP.Diagram.conv_HS",
     "PP.Diagram.conv_KD",
     "PP.Diagram.conv_step",
